@@ -56,6 +56,7 @@ CONSTANTS
   Words <- GenWords
   Prefix <- GenPrefix
   MaxLen = %(maxlen)d
+  MaxWords = %(maxwords)d
   MinLen = %(minlen)d
   NoBackslash = %(nbs)s
 INVARIANTS %(invs)s
@@ -101,17 +102,19 @@ def lex_case(v):
 
 
 def sqllex_generate(ctx, cf, words, maxlen, prefix="", minlen=0, nbs=False, sanity=False, label="", keep=None,
-                    timeout=900, workers=4):
+                    timeout=900, workers=4, maxwords=None, extra=None):
     """Enumerate with TLC every text over `words` (appended to prefix) up to maxlen symbols; every text with the
     specification's markers/pieces is appended to CaseFile cf (optionally filtered by keep(case))."""
     name = "SqlLex_run"
     mod = SQLLEX_RUN % {"name": name, "words": tla_words(words), "prefix": tla_seq(syms(prefix))}
-    cfg = SQLLEX_CFG % {"maxlen": maxlen, "minlen": minlen, "nbs": "TRUE" if nbs else "FALSE",
+    cfg = SQLLEX_CFG % {"maxlen": maxlen, "minlen": minlen, "maxwords": maxwords or maxlen, "nbs": "TRUE" if nbs else "FALSE",
                         "invs": "Emit" + (" " + SQLLEX_SANITY if sanity else "")}
     n0 = len(cf)
 
     def sink(v):
         c = lex_case(v)
+        if extra:
+            c.update(extra)
         if keep is None or keep(c):
             cf.add(c)
 
@@ -122,7 +125,7 @@ def sqllex_generate(ctx, cf, words, maxlen, prefix="", minlen=0, nbs=False, sani
     return r
 
 
-def run_harness(ctx, pkg, files, run, cf, env=None, on_dev=None, replay_wrap=None, timeout=2400):
+def run_harness(ctx, pkg, files, run, cf, env=None, on_dev=None, replay_wrap=None, timeout=2400, xcheck_is_impl=False):
     """Run a harness over a CaseFile (or a list); every deviation goes to ctx.deviation with the original case.
     Signatures starting with XCHECK are disagreements between the specification and the repository's own scanner:
     a defect of the specification, never a verdict."""
@@ -137,8 +140,12 @@ def run_harness(ctx, pkg, files, run, cf, env=None, on_dev=None, replay_wrap=Non
     if summ["cases"] != n:
         raise vlib.Inconclusive("harness %s examined %d of %d cases" % (run, summ["cases"], n))
     xc = []
+    summ["selftest_devs"] = []
     for r in res:
         case = get(r["case"])
+        if case.get("selftest"):
+            summ["selftest_devs"] += r.get("devs", [])
+            continue
         for d in r.get("devs", []):
             if d["sig"].startswith("XCHECK"):
                 xc.append((d, case))
@@ -149,7 +156,12 @@ def run_harness(ctx, pkg, files, run, cf, env=None, on_dev=None, replay_wrap=Non
             if on_dev:
                 on_dev(d, case, r)
             ctx.deviation(d["sig"], d["what"], rc)
-    if xc:
+    if xc and xcheck_is_impl and ctx.violations:
+        # the scanner is part of the implementation under test here and the implementation's own result already deviates
+        # from the specification on real code: report that; the disagreement of the scanner is recorded as a note
+        ctx.notes.append("scanner/specification disagreement on %d texts (scanner is part of the implementation under test), "
+                         "first: %s %s" % (len(xc), xc[0][0]["sig"], xc[0][0]["what"]))
+    elif xc:
         d, case = xc[0]
         raise vlib.Inconclusive("specification and repository scanner disagree on %d texts (specification defect to "
                                 "resolve, not a verdict), first: %s %s case=%s" % (len(xc), d["sig"], d["what"], json.dumps(case)))
